@@ -43,7 +43,12 @@ def verdict(ids, mod, rem):
 def abs_apply(a, st):
     """Return the abstract result of applying st to a, or None if invalid."""
     op = st['op']
-    if op in ('map', 'fresh', 'cache', 'profile', 'falsy'):
+    if op == 'falsy':
+        # selected examples lose their provenance (they become None, 0, ...)
+        e = None if a.elems is None else \
+            [() if (x and x[0] % st['mod'] == st['rem']) else x for x in a.elems]
+        return a.clone(elems=e)
+    if op in ('map', 'fresh', 'cache', 'profile'):
         if op == 'cache' and not a.indexable:
             return None
         return a.clone()
